@@ -18,6 +18,7 @@ import (
 	"github.com/KafScale/platform/internal/verif/enum"
 	"github.com/KafScale/platform/internal/verif/fakes3"
 	"github.com/KafScale/platform/internal/verif/vh"
+	"github.com/KafScale/platform/pkg/broker"
 	"github.com/KafScale/platform/pkg/metadata"
 )
 
@@ -302,6 +303,9 @@ func c02Run(hist *c02Hist, alpha [][]c02Item) (res c02Result) {
 		h.logConfig.ReadAheadSegments = 0 // no background prefetch goroutines
 		h.readAhead = 0
 		h.flushOnAck = hist.Mode == "sync"
+		// the S3 health monitor classifies by measured wall-clock latency; make it unable to
+		// leave the healthy state so that scheduling noise cannot turn into error codes
+		h.s3Health = broker.NewS3HealthMonitor(broker.S3HealthConfig{LatencyWarn: 1000 * time.Hour, LatencyCrit: 2000 * time.Hour, ErrorWarn: 2, ErrorCrit: 3})
 		handlers = append(handlers, h)
 		return h
 	}
@@ -450,7 +454,8 @@ func c02Run(hist *c02Hist, alpha [][]c02Item) (res c02Result) {
 	}
 	// fetch path: every acknowledged record set still in the log is found at its response base offset
 	for _, a := range model {
-		if a.item.Total == 0 {
+		if a.item.Total == 0 || hist.StoreFail > 0 {
+			// with a failed store update the published watermark legitimately lags (C05's subject)
 			continue
 		}
 		fr, err := vFetchOne(h, "t", 0, a.base, 1<<20)
@@ -462,14 +467,19 @@ func c02Run(hist *c02Hist, alpha [][]c02Item) (res c02Result) {
 		if fr.Code != 0 || !bytes.Contains(fr.Records, want) {
 			var cul *c02Acc
 			for _, m := range model {
-				if m.base <= a.base && !(m.item.wellFormed()) {
-					cul = m
+				if cul == nil && !m.item.wellFormed() {
+					cul = m // earliest malformed record set that was accepted
 				}
 			}
-			if cul == nil && !a.item.wellFormed() {
-				cul = a
+			readErr := ""
+			if fr.Code != 0 {
+				if plog, err := h.getPartitionLog(bg(), "t", 0); err == nil {
+					if _, rerr := plog.Read(bg(), a.base, 1<<20); rerr != nil {
+						readErr = " (PartitionLog.Read: " + rerr.Error() + ")"
+					}
+				}
 			}
-			res.viol = &c02Viol{c02Key(cul, false, "fetch-at-response-base-misses-batch"), fmt.Sprintf("record set #%d (%s) was acknowledged with BaseOffset %d, but a fetch at offset %d (maxBytes 1MiB) returned code %d, high watermark %d, %d bytes that do not contain that batch at base offset %d", a.pos+1, a.item.Name, a.base, a.base, fr.Code, fr.HW, len(fr.Records), a.base)}
+			res.viol = &c02Viol{c02Key(cul, false, "fetch-at-response-base-misses-batch"), fmt.Sprintf("record set #%d (%s) was acknowledged with BaseOffset %d, but a fetch at offset %d (maxBytes 1MiB) returned code %d, high watermark %d, %d bytes that do not contain that batch at base offset %d%s", a.pos+1, a.item.Name, a.base, a.base, fr.Code, fr.HW, len(fr.Records), a.base, readErr)}
 			res.sig = sig.String()
 			return
 		}
